@@ -26,13 +26,17 @@ def keepers(flavour, n):
     return out
 
 
-def scenarios(flavour, n, max_edges, full_orders, queries=False):
+def scenarios(flavour, n, max_edges, full_orders, queries=False, removes=False):
     for seq in canon_sequences(n, max_edges):
         nodes = [[i, 7 if queries else 100 + i] for i in range(n)]       # equal values: ties in pfs frontiers
         pre = [['connect', u, v, {'s': f'e{j}'}] for j, (u, v) in enumerate(seq)]
-        for members in ((), (0, 1), tuple(range(n))):
+        for members, removed in [(m, r) for m in ((), (0, 1), tuple(range(n))) for r in (([None] + list(m)) if removes else [None])]:
+            if removes and removed is None:
+                continue
             gsteps = ([['g_new']] + [['g_insert', i] for i in members]) if members else []
-            for keep in keepers(flavour, n):
+            if removed is not None:
+                gsteps = gsteps + [['g_remove', removed]]        # the container gives one member up (the result is dropped at once)
+            for keep in (keepers(flavour, n) if not removes else [None]):
                 handles = [('node', i) for i in range(n)]
                 if members:
                     handles.append(('graph',))
@@ -110,6 +114,8 @@ def evaluate(prop, scen, obs, ctx):
                     for e in res:
                         held |= {e[0], e[1]}
             holders[('kept',)] = held
+        elif op == 'g_remove':
+            holders.get(('graph',), set()).discard(st[1])
         elif op == 'drop':
             holders.pop(('node', st[1]), None)
         elif op == 'drop_graph':
@@ -145,8 +151,10 @@ def run(prop, tier, seed):
             items += list(scenarios(fl, 3, 3, False))
             items += list(scenarios(fl, 3, 2, False, queries=True))
             items += list(history_scenarios(fl, 3))
+            items += list(scenarios(fl, 3, 2, False, removes=True))
         else:
             items += list(history_scenarios(fl, 4))
+            items += list(scenarios(fl, 3, 3, False, removes=True))
             items += list(scenarios(fl, 3, 4, False))
             items += list(scenarios(fl, 3, 3, False, queries=True))
             items += list(scenarios(fl, 3, 2, True))
@@ -156,6 +164,7 @@ def run(prop, tier, seed):
         bounds={'nodes': 3, 'max_edges': 3 if tier == 'quick' else 4,
                 'queries_before_drops': 'variants in which every degree / predicate / lookup query runs on every node before the drops (<=2 edges, thorough 3)', 'node_values': 'distinct, and all equal (value ties in priority-first frontiers) in the query variants', 'handles': '3 node handles, optional container (members {0,1} or all), optional kept result of bfs path / dfs search / dfs cycle / preorder nodes / postorder edges / pfs min path / pfs max search',
                 'histories_with_removals': 'every sequence of <=%d connect / try_connect / disconnect / isolate calls on two bare nodes, both drop orders' % (3 if tier == 'quick' else 4),
+                'container_remove': 'a member is removed from the container (Graph::remove, result dropped) before the drops (<=%d edges)' % (2 if tier == 'quick' else 3),
                 'drop_orders': 'rotations + reverse' if tier == 'quick' else 'rotations + reverse (<=4 edges), all permutations (<=2 edges)',
                 'outside': 'more handles per node; results of pfs and of filtered searches; drop during a running traversal'},
         assumptions=['Rc/Arc/Weak counting semantics as documented by std (strong/weak counts, value dropped when strong reaches 0)',
